@@ -9,11 +9,24 @@ Problem dict: {"height", "width", "problem": grid of 0 (blank) | -1 | n >= 1, "u
 
 Ambiguity envelope (ii) of DESIGN.md: the black region ("the stream") may or may not be required to be non-empty.
 readings() returns two lists: [black region may be empty, black region must contain at least one cell].
+
+Two enumerators: candidates() + islands_ok() filters all 2^(h*w) colourings (boards up to 16 cells); search() assigns the
+cells one by one and gives up a branch as soon as a clue cell would be black, a 2x2 block is black, the black cells have two
+components of which one can no longer grow, or an island (white component of the assigned cells) holds two clues, outgrows
+its clue, can no longer grow while it has no clue / the wrong size, or has no clue and no clue left to reach, or the number
+of white cells can no longer equal the sum of the island sizes - consequences of the rules above only; selftest() compares both on every board up to 16 cells.  readings() uses search() beyond 16 cells.
+
+Shape ("large", h, w): the clue-free board, and dense instances derived from rule-obeying grids G (seeds(): evenly spaced
+ones, the one with the largest island - the all-white grid, a clue of h*w - and the one with most islands): G's complete
+clue set = every island's size (at the seed cell of the island / at its last cell), all or some as unknown sizes (`-1`, with
+unknown_low None / 2 / the smallest island size, two digits where an island allows it), all minus every k-th clue, one clue
++1 / -1 (first, last, middle).
 """
 
 from . import base
 
 _CAND = {}
+SMALL = 16  # boards up to this many cells are enumerated by candidates()
 
 
 def candidates(h, w):
@@ -68,18 +81,189 @@ def accepts(p, col):
     return islands_ok(w, p["problem"], p.get("unknown_low"), col, comps)
 
 
+class _Enough(Exception):
+    pass
+
+
+def _search_tall(h, w, clue, low, limit, descending):
+    """All is_white bit masks (bit y*w+x) of the h x w board with clue = {cell: n or -1}; in lexicographic order of the
+    cells (black < white; descending: the reverse), at most `limit` of them."""
+    n = h * w
+    full = (1 << n) - 1
+    notl = full & ~sum(1 << (y * w) for y in range(h))
+    notr = full & ~sum(1 << (y * w + w - 1) for y in range(h))
+    opn = []  # cells that still have an unassigned neighbour once cells 0..i are assigned
+    for i in range(n):
+        m = 0
+        for k in range(max(0, i - w + 1), i + 1):
+            if k + w < n:
+                m |= 1 << k
+        if i % w < w - 1:
+            m |= 1 << i
+        opn.append(m)
+    sq = [None] * n
+    for y in range(1, h):
+        for x in range(1, w):
+            i = y * w + x
+            sq[i] = (1 << i) | (1 << (i - 1)) | (1 << (i - w)) | (1 << (i - w - 1))
+    cluemask = sum(1 << k for k in clue)
+    # every white cell lies in an island with exactly one clue: bounds on the number of white cells
+    least = sum(c if c >= 1 else low for c in clue.values())
+    most = sum(clue.values()) if all(c >= 1 for c in clue.values()) else n
+
+    def flood(seed, mask):
+        while True:
+            nxt = (seed | ((seed << 1) & notl) | ((seed >> 1) & notr) | (seed << w) | (seed >> w)) & mask
+            if nxt == seed:
+                return seed
+            seed = nxt
+
+    def may_connect(cells, still_open):
+        if cells == 0:
+            return True
+        if flood(cells & -cells, cells) == cells:
+            return True
+        rest = cells
+        while rest:
+            comp = flood(rest & -rest, rest)
+            if not comp & still_open:
+                return False
+            rest &= ~comp
+        return True
+
+    def islands_may_fit(white, still_open, clues_ahead):
+        """Islands of the assigned cells: at most one clue each, not larger than the clue; an island that cannot grow any
+        more is final (one clue, the clued size); an island without a clue needs a clue it can still reach."""
+        rest = white
+        orphans = False
+        open_clued = False
+        while rest:
+            comp = flood(rest & -rest, rest)
+            rest &= ~comp
+            cl = comp & cluemask
+            size = bin(comp).count("1")
+            grows = bool(comp & still_open)
+            if cl == 0:
+                if not grows:
+                    return False
+                orphans = True
+                continue
+            if cl & (cl - 1):
+                return False
+            want = clue[cl.bit_length() - 1]
+            if grows:
+                open_clued = True
+                if want >= 1 and size > want:
+                    return False
+            elif (size != want) if want >= 1 else (size < low):
+                return False
+        if orphans and not clues_ahead and not open_clued:
+            return False
+        return True
+
+    out = []
+    values = (1, 0) if descending else (0, 1)
+
+    def rec(i, white):
+        if i == n:
+            out.append(white)
+            if limit is not None and len(out) >= limit:
+                raise _Enough()
+            return
+        done = (1 << (i + 1)) - 1
+        still_open = opn[i] if i < n - 1 else 0
+        for v in values:
+            if not v and cluemask >> i & 1:
+                continue
+            nw = white | (v << i)
+            q = sq[i]
+            if q is not None and not nw & q:
+                continue
+            whites = bin(nw).count("1")
+            if whites > most or whites + (n - 1 - i) < least:
+                continue
+            if not may_connect(done & ~nw, still_open):
+                continue
+            if not islands_may_fit(nw, still_open, bool(cluemask & ~done)):
+                continue
+            rec(i + 1, nw)
+
+    try:
+        rec(0, 0)
+    except _Enough:
+        pass
+    return out
+
+
+def search(h, w, prob, low=None, limit=None, descending=False):
+    """All is_white tuples (row-major) obeying the rules (black region may be empty), by pruned search."""
+    cells = [c for row in prob for c in row]
+    for y in range(h):
+        for x in range(w):
+            if prob[y][x] != 0 and ((x + 1 < w and prob[y][x + 1] != 0) or (y + 1 < h and prob[y + 1][x] != 0)):
+                return []  # two clue cells side by side are white cells of one island
+    # internal board: at least as tall as wide, clues rather near its first rows; (Y, X) inside is at(Y, X) outside
+    ih, iw = (h, w) if w <= h else (w, h)
+    at = (lambda Y, X: (Y, X)) if w <= h else (lambda Y, X: (X, Y))
+    rows = [sum(1 for X in range(iw) if cells[at(Y, X)[0] * w + at(Y, X)[1]] != 0) for Y in range(ih)]
+    if sum(c * (2 * Y - (ih - 1)) for Y, c in enumerate(rows)) > 0:
+        at = (lambda f: (lambda Y, X: f(ih - 1 - Y, X)))(at)
+    real = [at(Y, X)[0] * w + at(Y, X)[1] for Y in range(ih) for X in range(iw)]
+    pos = [0] * (h * w)
+    for k, r in enumerate(real):
+        pos[r] = k
+    clue = {k: cells[r] for k, r in enumerate(real) if cells[r] != 0}
+    found = _search_tall(ih, iw, clue, 1 if low is None else low, limit, descending)
+    return [tuple(bool(m >> pos[r] & 1) for r in range(h * w)) for m in found]
+
+
+def seeds(h, w):
+    """(grid, seed cells) pairs, the source of the dense instances: for every one, two, four of eight landmark cells
+    (corners, middles of the sides, centre) and every 3, 5, 6 out of the first six, the first and the last grid (search
+    order) whose islands hold exactly one of those cells each."""
+    import itertools
+
+    n = h * w
+    marks = sorted(set([0, w - 1, n - w, n - 1, w // 2, n - w + w // 2, (h // 2) * w + w - 1, (h // 2) * w + w // 2]))
+    out = []
+    for k in (1, 2, 3, 4, 5, 6):
+        for pos in itertools.combinations(marks if k in (1, 2, 4) else marks[:6], k):
+            prob = base.grid([-1 if c in pos else 0 for c in range(n)], h, w)
+            for desc in (False, True):
+                if k == 1 and (not desc or pos[0] not in (0, n - 1)):
+                    continue  # one island only: just the all-white grid (the solver needs a minute for one island of 18 on 6x6)
+                for g in search(h, w, prob, limit=1, descending=desc):
+                    if (g, pos) not in out:
+                        out.append((g, pos))
+    return out
+
+
+def pick(seq, k):
+    """k evenly spaced elements of seq, first and last included (all of seq when it has at most k elements)."""
+    if len(seq) <= k:
+        return list(seq)
+    return [seq[(len(seq) - 1) * j // (k - 1)] for j in range(k)]
+
+
 class Nurikabe(base.Rule):
     name = "nurikabe"
 
     def shapes(self, tier):
         s = [(1, 1), (1, 2), (2, 1), (1, 3), (3, 1), (2, 2), (2, 3), (3, 2), (3, 3)]
+        large = [("large", 5, 5), ("large", 6, 5), ("large", 5, 6), ("large", 6, 6), ("large", 2, 10), ("large", 10, 2), ("large", 1, 12), ("large", 12, 1)]
         if tier != "quick":
             s += [(1, 4), (4, 1), (1, 5), (5, 1), (2, 4), (4, 2), (3, 4), (4, 3)]
-        return s
+            large += [("large", 3, 8), ("large", 8, 3), ("large", 4, 8), ("large", 8, 4), ("large", 1, 15), ("large", 15, 1), ("large", 2, 13), ("large", 13, 2)]
+        return s + large
 
     def instances(self, shape, cap):
         """All layouts with <= k clues (cap rule) over 0 | -1 1 2 3 4 with unknown_low=None; every layout that contains
-        a `-1` clue is generated again with unknown_low=2."""
+        a `-1` clue is generated again with unknown_low=2.  Shape ("large", h, w): see the module doc (cap <= 1000 selects
+        the short quick-tier list)."""
+        if shape[0] == "large":
+            for cells, low in self.large_layouts(shape[1], shape[2], cap <= 1000):
+                yield {"height": shape[1], "width": shape[2], "problem": base.grid(cells, shape[1], shape[2]), "unknown_low": low}
+            return
         h, w = shape
         lays, k = base.layouts(h * w, 0, [-1, 1, 2, 3, 4], cap)
         lows = [2]
@@ -88,6 +272,59 @@ class Nurikabe(base.Rule):
             if -1 in cells:
                 for low in lows:
                     yield {"height": h, "width": w, "problem": base.grid(cells, h, w), "unknown_low": low}
+
+    def large_layouts(self, h, w, quick):
+        n = h * w
+        cells_of = [(k // w, k % w) for k in range(n)]
+        out = [([0] * n, None)]
+        sd = seeds(h, w)
+        isl = []  # per seed grid: its islands as {seed cell: sorted cells}
+        for g, pos in sd:
+            comps = base.components([c for c, v in zip(cells_of, g) if v])
+            isl.append({q: sorted(y * w + x for y, x in comp) for comp in comps for q in pos if cells_of[q] in comp})
+        gs = pick(list(range(len(sd))), 2 if quick else 4)
+        gs.append(max(range(len(sd)), key=lambda j: (max(len(c) for c in isl[j].values()), -j)))  # largest island
+        gs.append(max(range(len(sd)), key=lambda j: (len(isl[j]), -j)))  # most islands
+        for gi, j in enumerate(gs):
+            size = {q: len(c) for q, c in isl[j].items()}
+            qs = sorted(size)
+            small, big = min(size.values()), max(size.values())
+            var = {}
+            var["full"] = (dict(size), None)
+            var["moved"] = ({isl[j][q][-1]: size[q] for q in qs}, None)  # every clue in the last cell of its island
+            var["unknown"] = ({q: -1 for q in qs}, None)
+            var["unknown2"] = ({q: -1 for q in qs}, 2)
+            var["unknownmin"] = ({q: -1 for q in qs}, small)
+            var["unknownmin+1"] = ({q: -1 for q in qs}, small + 1)
+            var["bigunknown"] = ({q: (-1 if size[q] == big else size[q]) for q in qs}, big)
+            var["bigunknown+1"] = ({q: (-1 if size[q] == big else size[q]) for q in qs}, big + 1)
+            var["mixed"] = ({q: (size[q] if t % 2 == 0 else -1) for t, q in enumerate(qs)}, None)
+            var["minus2"] = ({q: size[q] for t, q in enumerate(qs) if t % 2 == 0}, None)
+            var["minus3"] = ({q: size[q] for t, q in enumerate(qs) if t % 3 != 2}, None)
+            var["minusfirst"] = ({q: size[q] for q in qs[1:]}, None)
+            for name, t in (("first", 0), ("last", len(qs) - 1), ("mid", len(qs) // 2)):
+                for d in (1, -1):
+                    v = dict(size)
+                    v[qs[t]] += d
+                    if v[qs[t]] >= 1:
+                        var["%s%+d" % (name, d)] = (v, None)
+            if quick:  # every kind of variant about once, spread over the grids G
+                names = (["full", "last-1"], ["moved", "unknown2", "minus2"], [], ["full", "mixed", "mid+1"])[gi][: 2 if n > 20 else 3]
+            else:
+                names = list(var)
+            if len(qs) == 1:  # the all-white grid: the variants with few answers only
+                names = ["moved", "unknownmin", "first-1"][: 2 if n > 20 else 3] if quick else ["full", "moved", "unknownmin", "unknownmin+1", "first-1", "first+1"]
+            for k in names:
+                if k not in var:
+                    continue
+                cl, low = var[k]
+                unknowns = sum(1 for c in cl.values() if c == -1)
+                if n > 20 and len(qs) > 1 and (len(cl) < 3 or (unknowns >= 3 and len(cl) < 6)):
+                    continue  # tens of thousands of answers: beyond a few seconds of enumeration
+                item = ([cl.get(c, 0) for c in range(n)], low if -1 in cl.values() else None)
+                if item not in out:
+                    out.append(item)
+        return out
 
     def call(self, p):
         from cspuz.puzzle import nurikabe
@@ -99,6 +336,13 @@ class Nurikabe(base.Rule):
         return is_sat, base.sols_of(is_white)
 
     def readings(self, p):
+        h, w = p["height"], p["width"]
+        if h * w > SMALL:
+            may_be_empty = search(h, w, p["problem"], p.get("unknown_low"))
+            return [may_be_empty, [col for col in may_be_empty if not all(col)]]
+        return self.filtered(p)
+
+    def filtered(self, p):
         h, w = p["height"], p["width"]
         may_be_empty = []
         non_empty = []
@@ -131,6 +375,36 @@ def published_example_check():
     """Slow (about 20 min): solve main()'s example with the real solver and test the reported grid with accepts()."""
     is_sat, keys = RULE.call(PUBLISHED)
     return is_sat, keys, (None not in keys) and accepts(PUBLISHED, tuple(keys))
+
+
+def selftest():
+    """search() against the filter of all colourings on every board up to 16 cells: clue-free, every layout with one or two
+    clues over -1 1 2 3 5 (every third layout on boards of more than 9 cells; unknown_low None, and 2 / 3 with a `-1`), and
+    the dense layouts of large_layouts()."""
+    import itertools
+
+    r = Nurikabe()
+    checked = 0
+    for h, w in [(h, w) for h in range(1, 17) for w in range(1, 17) if h * w <= SMALL]:
+        n = h * w
+        lays = [([0] * n, None)]
+        for k in (1, 2):
+            for pos in itertools.combinations(range(n), k):
+                for vals in itertools.product([-1, 1, 2, 3, 5], repeat=k):
+                    cells = [0] * n
+                    for q, v in zip(pos, vals):
+                        cells[q] = v
+                    lays.append((cells, None))
+                    if -1 in vals:
+                        lays.append((cells, 2 + len(lays) % 2))
+        if n > 9:
+            lays = lays[::3]
+        lays += r.large_layouts(h, w, False)
+        for cells, low in lays:
+            p = {"height": h, "width": w, "problem": base.grid(cells, h, w), "unknown_low": low}
+            assert sorted(search(h, w, p["problem"], low)) == sorted(r.filtered(p)[0]), p
+            checked += 1
+    return checked
 
 
 RULE = Nurikabe()
